@@ -114,10 +114,25 @@ def render(spec):
             if kind == "closure":
                 body.append("modify cap = cap + 1")
             if inner:
-                if pre:
+                wrap = spec.get("wrap") or ("if" if pre else None)
+                if wrap == "if":
                     body.append("if a > 0 {")
+                elif wrap == "else":
+                    body += ["if a < 1 {", "\tfq = 0", "} else {"]
+                elif wrap == "while":
+                    body += ["fq = 0", "while fq < a {"]
+                elif wrap == "from":
+                    body.append("from 0 to a {")
+                elif wrap == "deep":
+                    body += ["fq = 0", "while fq < a {", "\tif fq == 0 {"]
+                if wrap:
+                    pad = "\t\t" if wrap == "deep" else "\t"
                     for st in FAILS[fail]:
-                        body.append("\t" + st)
+                        body.append(pad + st)
+                    if wrap in ("while", "deep"):
+                        if wrap == "deep":
+                            body.append("\t}")
+                        body.append("\tfq = fq + 1")
                     body.append("}")
                 else:
                     # the failing operation sits directly in the function body
@@ -298,6 +313,8 @@ def generate(rng, failure=None, depth=None):
     links = [rng.choice(KINDS) for _ in range(n)]
     spec = {"links": links, "failure": failure or rng.choice(sorted(FAILS)), "pre": rng.chance(1, 2), "modtop": rng.chance(1, 4),
             "split": rng.range(0, n) if (n and rng.chance(1, 2)) else None}
+    # where in the innermost body the failing operation sits (None: directly in the body, or in an `if` when a successful pre-run exists)
+    spec["wrap"] = rng.weighted([(None, 4), ("if", 2), ("else", 2), ("while", 2), ("from", 2), ("deep", 1)])
     return spec
 
 
@@ -314,6 +331,10 @@ def shrink(spec):
             c = dict(spec)
             c[key] = False
             yield c
+    if spec.get("wrap"):
+        c = dict(spec)
+        c["wrap"] = None
+        yield c
     if spec.get("split") is not None:
         c = dict(spec)
         c["split"] = None
